@@ -7,6 +7,7 @@
     tzl.cache <dump> u<t>|l<ℓ>,…    -> s<off> | a<o1>/<o2> | n | panic    (Cache::offset glue)
     tzl.wall  <dump> ℓ1,ℓ2,…        -> instants of Spec.wallSet separated by `/` (or `-`)
     tzl.sep   <dump>                -> 1 | 0   (Spec.Zone.zoneSeparatedB = WellSeparated ∧ JoinSeparated)
+    tzl.yearly <dump>               -> <ruleYearlyB><insideYearB> (two 0/1 digits; `-` if the rule is not alternate-time)
 -/
 import Chrono.Drv.Util
 import Chrono.Model.TzLookup
@@ -147,6 +148,11 @@ def handle (op : String) (args : List String) : Option String :=
   | "tzl.sep", [a, b, c, d] => some (match parseZone a b c d with
       | none => bad
       | some z => showBool (Spec.Zone.zoneSeparatedB z))
+  | "tzl.yearly", [a, b, c, d] => some (match parseZone a b c d with
+      | none => bad
+      | some z => match z.rule with
+        | some (.alt r) => showBool (Spec.Zone.ruleYearlyB r) ++ showBool (Spec.Zone.insideYearB r)
+        | _ => "-")
   | "tzl.dump", [a, b, c, d] => some (match parseZone a b c d with
       | none => bad
       | some z => z.dump)
